@@ -105,6 +105,8 @@ pub fn replay(args: &[String]) {
             if echoes != exp["echoes"].as_u64().unwrap() { why.push(format!("{} echo lines, expected {}", echoes, exp["echoes"])); }
             let lines: Vec<String> = stdout.lines().map(|l| l.trim().to_string()).filter(|l| l == "hello" || l == "child").collect();
             if json!(lines) != exp["lines"] { why.push(format!("output lines {:?}, expected {}", lines, exp["lines"])); }
+            let pp = stdout.lines().filter(|l| l.trim() == "pp").count() as u64;
+            if Some(pp) != exp["pp"].as_u64() { why.push(format!("{} parse-time print lines, expected {}", pp, exp["pp"])); }
             let has_child = rec["script"]["st"].as_array().unwrap().iter().any(|k| k == "xecho");
             // the same output as the library run
             if !missing && !has_child && ["file", "-e", "--eval"].contains(&form.as_str()) {
@@ -159,7 +161,8 @@ pub fn record(args: &[String]) {
         let stdout = String::from_utf8_lossy(&o.stdout).into_owned();
         let obs = json!({"status0": o.status.code() == Some(0), "errline": stdout.lines().any(|l| l.starts_with("Error:")), "ran": marker.exists(),
                          "echoes": stdout.lines().filter(|l| l.trim() == "hello").count(),
-                         "lines": stdout.lines().map(|l| l.trim().to_string()).filter(|l| l == "hello" || l == "child").collect::<Vec<_>>()});
+                         "lines": stdout.lines().map(|l| l.trim().to_string()).filter(|l| l == "hello" || l == "child").collect::<Vec<_>>(),
+                         "pp": stdout.lines().filter(|l| l.trim() == "pp").count()});
         let mut same = true;
         if !missing && !st.contains(&"xecho") && ["file", "-e", "--eval"].contains(&form) {
             let (lib_ok, lib_out) = library(&text, if form == "file" { Some(&script_path) } else { None });
